@@ -105,14 +105,22 @@ def harness_bin(names, mode):
     rt = ['symrt_core.cc', 'symrt_gmp.cc'] if mode == 'sym' else ['conrt.cc']
     rt = [os.path.join(VERIF, 'symrt', f) for f in rt]
     hs = [os.path.join(VERIF, 'harness', n + '.cc') for n in names]
-    hdrs = glob.glob(os.path.join(VERIF, 'symrt', '*.hh')) + glob.glob(os.path.join(VERIF, 'oracle', '*.hh')) + glob.glob(os.path.join(VERIF, 'harness', '*.hh'))
+    hdrs = glob.glob(os.path.join(VERIF, 'symrt', '*.hh')) + glob.glob(os.path.join(VERIF, 'symrt', '*.inc')) + glob.glob(os.path.join(VERIF, 'oracle', '*.hh')) + glob.glob(os.path.join(VERIF, 'harness', '*.hh'))
     incs = Z3INC + ['-I' + os.path.join(VERIF, 'symrt'), '-I' + os.path.join(VERIF, 'oracle'), '-I' + os.path.join(VERIF, 'harness'),
             '-I' + REPO, '-I' + os.path.join(REPO, 'src'), '-I' + os.path.join(REPO, 'interfaces')]
     if mode == 'sym':
         incs = ['-I' + os.path.join(VERIF, 'symgmp')] + incs
     interfaces = any('C20' in n for n in names)
+    extra = []
+    if interfaces:
+        # the C interface: generic part plus the generated Polyhedron file (regenerated by the repository's own m4 rules)
+        cdir = os.path.join(REPO, 'interfaces', 'C')
+        subprocess.run(['make', '-s', '-C', cdir, 'ppl_c.h', 'ppl_c_Polyhedron.cc', 'ppl_c_Polyhedron.hh'], stdout=subprocess.DEVNULL, stderr=subprocess.DEVNULL)
+        extra = [os.path.join(cdir, 'ppl_c_implementation_common.cc'), os.path.join(cdir, 'ppl_c_Polyhedron.cc')]
+        incs = incs + ['-I' + cdir]
+        hdrs = hdrs + glob.glob(os.path.join(cdir, '*.hh')) + glob.glob(os.path.join(cdir, '*.h')) + glob.glob(os.path.join(cdir, '*.m4')) + glob.glob(os.path.join(REPO, 'interfaces', '*.m4'))
     objs, cmds = [], []
-    for s in rt + hs:
+    for s in rt + hs + extra:
         h = _hash_files([s] + hdrs + repo_sources() + (glob.glob(os.path.join(VERIF, 'symgmp', '*.h')) if mode == 'sym' else []), mode + str(USE_Z3NEW))
         od = os.path.join(BUILD, 'obj-' + mode)
         os.makedirs(od, exist_ok=True)
